@@ -13,6 +13,8 @@ from __future__ import annotations
 import itertools
 import math
 
+import copy
+
 import numpy as np
 from hypothesis import strategies as st
 
@@ -158,16 +160,27 @@ def strat_vector(draw, tier):
     if not any(w > 0 for w in ws):
         ws[draw(st.integers(0, k - 1))] = 1
     return {"weights": ws, "sampler": draw(st.sampled_from(["alias", "table", "bst", "huffman"])),
-            "shift": draw(st.integers(0, k - 1)), "us": draw(st.lists(st.floats(0, 1, exclude_max=True), max_size=6))}
+            "shift": draw(st.integers(0, k - 1)), "us": draw(st.lists(st.floats(0, 1, exclude_max=True), max_size=6)),
+            "container": draw(st.sampled_from(["ndarray", "ndarray", "list", "tuple"]))}
 
 
-def _vector_sampler(name, p, states):
+def _vector_sampler(name, p, states, container="ndarray"):
     from rpylib.distribution.variate.alias import AliasMethod
     from rpylib.distribution.variate.binarysearchtree import BinarySearchTree
     from rpylib.distribution.variate.huffmantree import HuffmanTree
     from rpylib.distribution.variate.table import TableMethod
 
-    return {"alias": AliasMethod, "table": TableMethod, "bst": BinarySearchTree, "huffman": HuffmanTree}[name](p, states)
+    return {"alias": AliasMethod, "table": TableMethod, "bst": BinarySearchTree, "huffman": HuffmanTree}[name](
+        _in_container(p, container), states)
+
+
+def _in_container(p, container):
+    """the probability vector as an ndarray, a python list or a tuple (the constructors convert what they are given)"""
+    if container == "list":
+        return [float(v) for v in p]
+    if container == "tuple":
+        return tuple(float(v) for v in p)
+    return p
 
 
 def _alias_cuts(al):
@@ -217,7 +230,7 @@ def body_vector(case):
     detail = f"weights={case['weights']}"
     if name == "table":
         try:
-            smp = _vector_sampler(name, p, ident)
+            smp = _vector_sampler(name, p, ident, case.get("container", "ndarray"))
         except ValueError:
             if np.all(256 * p == np.floor(256 * p)):
                 return [Violation("REJECTED", "table method documents that it rejects vectors with no residual")]
@@ -263,7 +276,7 @@ def body_vector(case):
                 break
         return out
 
-    smp = _vector_sampler(name, p, ident)
+    smp = _vector_sampler(name, p, ident, case.get("container", "ndarray"))
     f = _single_u_fn(name, smp)
     lattice = [(j + 0.5) / 2048 for j in range(2048)]
     if name == "alias":
@@ -313,11 +326,22 @@ def classify_vector(case):
 METHODS_1D = ["ALIAS", "TABLE", "BINARYSEARCHTREE", "HUFFMANNTREE", "INVERSION", "BINARYSEARCHTREEADAPTED1D"]
 
 
+def _maybe_rare(draw, spec):
+    """one model in ten has an intensity scaled by 1e-9: the target law q / lambda does not depend on that scale"""
+    if draw(st.integers(0, 9)) == 0:
+        key = {"hem": "intensity", "merton": "intensity", "cgmy": "c"}.get(spec["family"])
+        if key:
+            spec["params"][key] = float(f"{spec['params'][key] * 1e-9:.6g}")
+            spec["rare"] = True
+    return spec
+
+
 @st.composite
 def strat_chain(draw, tier):
-    spec = draw(chain_model_spec())
+    spec = _maybe_rare(draw, draw(chain_model_spec()))
     g = draw(grid_spec(max_refine=1))
     return {"model": spec, "grid": g, "method": draw(st.sampled_from(METHODS_1D)),
+            "chain_before_refine": draw(st.booleans()),
             "us": draw(st.lists(st.floats(0, 1, exclude_max=True), min_size=2, max_size=12))}
 
 
@@ -328,7 +352,19 @@ def _chain(case):
 
     spec, gspec = case["model"], case["grid"]
     model = build_model(spec)
-    grid = build_grid(gspec, model, spec)
+    if case.get("chain_before_refine") and gspec.get("refine", 0) > 0:
+        # the way the levels of a coupling come about: a chain (and its sampler) on the grid, the grid refined in place,
+        # a new chain on the same grid object
+        grid = build_grid(gspec, model, spec, refine=False)
+        for _ in range(gspec["refine"]):
+            if len(grid.axes[0]) > 700:
+                raise GridRejected("axis larger than the per-case bound")
+            earlier = MarkovChainProcess(model=model, method=SamplingMethod[case["method"]], grid=grid)
+            earlier.sampling.sample_with_u(0.37) if hasattr(earlier.sampling, "sample_with_u") else None
+            grid.number_of_points()
+            grid.refine()
+    else:
+        grid = build_grid(gspec, model, spec)
     if len(grid.axes[0]) > 700:
         raise GridRejected("axis larger than the per-case bound")
     proc = MarkovChainProcess(model=model, method=SamplingMethod[case["method"]], grid=grid)
@@ -377,6 +413,23 @@ def body_chain(case):
         proc, grid, q = _chain(case)
     except GridRejected as e:
         return [Violation("REJECTED", str(e))]
+    except ValueError as e:
+        # the table method documents that it rejects vectors without residual (every probability a multiple of 1/256,
+        # e.g. a symmetric law on two reachable states): decided from an independently built rate vector
+        if case["method"] == "TABLE" and "array of 0s" in str(e):
+            from rpylib.distribution.samplingfactory import create_q_vector
+
+            spec = case["model"]
+            model = build_model(spec)
+            g2 = build_grid(case["grid"], model, spec)
+            m2 = copy.deepcopy(model)
+            m2.truncate_levy_measure(g2.truncations[0])
+            q2 = np.array(create_q_vector(m2.levy_triplet.nu, g2), dtype=float)
+            q2[g2.origin_coordinate.value] = 0.0
+            p2 = q2 / q2.sum()
+            if np.all(256 * p2 == np.floor(256 * p2)):
+                return [Violation("REJECTED", "table method documents that it rejects vectors with no residual")]
+        raise
     method = case["method"]
     gtype = case["grid"]["type"]
     o = grid.origin_coordinate.value
@@ -454,6 +507,19 @@ def body_chain(case):
     for u in hist:
         fr = _fresh_sampler(proc, grid, method) if method in ("INVERSION", "BINARYSEARCHTREEADAPTED1D") else fresh
         exp.append(_chain_fn_and_cuts(fr, method, proc, grid, q)[0](float(u)))
+    if got == exp and method == "INVERSION" and case.get("memo_capacity"):
+        small = mk()
+        small._max_storage = max(int(case["memo_capacity"]), len(small._cumulative_probabilities))
+        g_small = f_of(small)
+        for j, u in enumerate(hist):
+            if u > 1 - 1e-9:
+                continue
+            a = g_small(float(u))
+            if a != exp[j]:
+                out.append(Violation(f"{tag}/bounded-memo/answer-depends-on-history",
+                                     f"memo of {small._max_storage} entries, u={u!r} (call {j}): {a} vs fresh full-memo "
+                                     f"sampler {exp[j]}; {detail}"))
+                break
     if got != exp:
         j = next(i for i, (a, b) in enumerate(zip(got, exp)) if a != b)
         total = float(smp._cumulative_probabilities[-1]) if method == "INVERSION" else 1.0
@@ -470,6 +536,10 @@ def body_chain(case):
 def classify_chain(case):
     g = case["grid"]
     labels = [case["method"], g["type"], branch_of(case["model"])]
+    if case["model"].get("rare"):
+        labels.append("intensity-scaled-by-1e-9")
+    if case.get("chain_before_refine") and g.get("refine", 0) > 0:
+        labels.append("chain-before-refine")
     return labels, True
 
 
@@ -484,6 +554,9 @@ def strat_copula_chain(draw, tier):
     # another chain (same margins, another copula) sampled on an equal grid earlier in the same process: samplers are
     # independent objects, whatever was computed for one must not show in the other
     case["earlier_sampler"] = draw(st.booleans())
+    # the history below also runs on an inversion sampler whose memo holds a few entries only (a chain with more states
+    # than the 1e6-entry memo)
+    case["memo_capacity"] = draw(st.sampled_from([None, 1, 3, 10, 40]))
     return case
 
 
@@ -633,7 +706,7 @@ def classify_copula_chain(case):
 # ----------------------------------------------------------------------------- (c) histories on one sampler
 @st.composite
 def strat_history(draw, tier):
-    spec = draw(chain_model_spec())
+    spec = _maybe_rare(draw, draw(chain_model_spec()))
     g = draw(grid_spec(max_refine=1, types=["uniform", "uniform-fixed", "geometric", "geometric-bounds"]))
     ops = draw(st.lists(st.one_of(
         st.tuples(st.just("draw"), st.floats(0, 1, exclude_max=True)),
@@ -644,6 +717,10 @@ def strat_history(draw, tier):
         st.tuples(st.just("reset-cost"), st.just(0.0)),
     ), min_size=4, max_size=30))
     return {"model": spec, "grid": g, "method": draw(st.sampled_from(["INVERSION", "BINARYSEARCHTREEADAPTED1D"])),
+            # the inversion sampler memoises a bounded prefix of the enumeration (1e6 entries): a small capacity on the
+            # long-lived instance stands for a chain with more states than the memo holds
+            "memo_capacity": draw(st.sampled_from([None, None, 2, 5, 17, 60])),
+            "chain_before_refine": draw(st.booleans()),
             "ops": [[o[0], o[1]] for o in ops]}
 
 
@@ -658,6 +735,10 @@ def body_history(case):
     smp = proc.sampling
     asked = []
     tag = f"C02/history/{method}"
+    cap = case.get("memo_capacity")
+    if cap and method == "INVERSION" and hasattr(smp, "_max_storage"):
+        smp._max_storage = max(int(cap), len(smp._cumulative_probabilities))
+        tag += "/bounded-memo"
 
     def fresh_answer(u):
         return int(_fresh_sampler(proc, grid, method).sample_with_u(u))
@@ -686,6 +767,8 @@ def body_history(case):
             asked.append(u)
             e = fresh_answer(u)
             total = float(smp._cumulative_probabilities[-1]) if method == "INVERSION" else 1.0
+            if "bounded-memo" in tag:  # the memo stops early: the enumerated total is within rounding of 1
+                total = 1.0 - 1e-9
             if g != e and method == "INVERSION" and u > total - 1e-12:
                 out.append(anomaly("chain/INVERSION", "random state above the enumerated total mass",
                                    f"u={u!r} exceeds the enumerated total {total!r}: {g} vs {e}"))
@@ -701,6 +784,8 @@ def body_history(case):
 def classify_history(case):
     ops = [o[0] for o in case["ops"]]
     labels = [case["method"]] + sorted(set(ops))
+    if case.get("memo_capacity") and case["method"] == "INVERSION":
+        labels.append("bounded-memo")
     return labels, ("repeat" in ops and ("far" in ops or "batch" in ops or "reset-cost" in ops))
 
 
